@@ -202,8 +202,18 @@ def check_terminate(c, f):
     g = f.cfg
     dead_tests = [t for t in g.nodes if t.kind == 'test' and norm(t.ast) in ('not self.isalive()', 'self.isalive()')]
     c.need(len(dead_tests) >= 5, 'terminate: expected >= 5 liveness checks, found %d' % len(dead_tests))
+    # a blocking wait for the child (returns only once it was reaped) is as good a verdict as `not self.isalive()`
+    waits = [n for n, k in cfg_nodes_with_call(f, lambda k: callee_last(k) == 'wait' and ctext(k.func.value, f) in ('self', 'self.ptyproc'))]
+
+    def after_wait(r):
+        return any(g.dominated_by(r, {w})[0] and not any(
+            g.path(w, kn, skip_labels=('exc',), include_start=False) is not None and g.path(kn, r, skip_labels=('exc',)) is not None
+            for kn, _ in cfg_nodes_with_call(f, lambda k: callee_last(k) == 'kill')) for w in waits)
     for r in returns(f):
         v = r.ast.value
+        if waits and is_const(v, True) and after_wait(r):
+            c.ok(f, r.ast, 'return True after a blocking wait for the child', tag='true-after-wait@%s' % len(c.obs))
+            continue
         # value must agree with the nearest liveness verdict
         near = [(t, e) for t in dead_tests for e in ('true', 'false') if r in guard_region(g, t, e, skip_labels=())]
         if near:
@@ -253,8 +263,8 @@ def check_terminate(c, f):
             okm, p = g.must_pass(ft[0], set(n for n in fr if n.kind == 'stmt' and isinstance(n.ast, ast.Return)), {by['SIGKILL']}, skip_labels=('exc', 'false'))
             c.check(okm, f, by['SIGKILL'].ast, 'with force every path sends SIGKILL before returning', witness=g.describe_path(p) if p else None, tag='force-kills')
             # after KILL a liveness check decides the result
-            okr, p = g.must_pass(by['SIGKILL'], {g.exit}, set(dead_tests), skip_labels=('exc',))
-            c.check(okr, f, by['SIGKILL'].ast, 'after SIGKILL the result is decided by a liveness check', witness=g.describe_path(p) if p else None, tag='recheck-after-kill')
+            okr, p = g.must_pass(by['SIGKILL'], {g.exit}, set(dead_tests) | set(waits), skip_labels=('exc',))
+            c.check(okr, f, by['SIGKILL'].ast, 'after SIGKILL the result is decided by a liveness check (or a blocking wait)', witness=g.describe_path(p) if p else None, tag='recheck-after-kill')
     # first statement: already dead -> True
     first = [t for t in dead_tests if g.dominated_by(by.get('SIGHUP', g.exit), {t})[0]] if 'SIGHUP' in by else []
     c.check(bool(first), f, first[0].ast if first else None, 'no signal is sent to a child that is already dead', tag='dead-first')
@@ -287,5 +297,7 @@ MUTANTS = [
     ('setecho-stale-fd', 'pty_spawn', "        return os.isatty(self.child_fd)", "        return os.isatty(self.ptyproc.fd)", 'D2'),
 ]
 PRESERVING = [
+    ('terminate-kill-then-wait', 'pty_spawn', "                self.kill(signal.SIGKILL)\n                time.sleep(self.delayafterterminate)\n                if not self.isalive():\n                    return True\n                else:\n                    return False",
+     "                self.kill(signal.SIGKILL)\n                self.wait()\n                return True"),
     ('kill-guard-not', 'pty_spawn', "        if self.isalive():\n            os.kill(self.pid, sig)", "        if not self.isalive():\n            return\n        os.kill(self.pid, sig)"),
 ]
